@@ -11,13 +11,15 @@
 (*           @testonly function XF that a.go calls (A3);                   *)
 (*           possible when X is a file of another package that p imports   *)
 (*           (classes tdpath, genpath) or a regular sibling file           *)
-(*    viol - X contains violations X1 (IMM01) and X2 (TONL02 call)         *)
+(*    viol - X contains violations X1 (IMM01) and X2 (TONL02 call) inside  *)
+(*           a function and X3 (TONL02 call in a package-level initialiser)*)
 (*    ign  - X starts with a file-level `@ignore ALL`                      *)
 (* Classes: sibling (regular file of p), test (in-package _test.go),       *)
 (* xtest (external test package), tdpath (a package under a directory      *)
 (* whose path contains "testdata"), genpath (a package under zzgen/),      *)
 (* genfile / genfirst (a regular file of p itself whose *name* contains    *)
-(* zzgen and sorts after / before a.go).                                   *)
+(* zzgen and sorts after / before a.go), gentest (an in-package _test.go   *)
+(* file whose name contains zzgen: excluded by name *and* a test file).    *)
 (* Configuration: scan (scan-tests), paths (exclude-paths items).          *)
 (*                                                                         *)
 (* L2: the three readers, each iterating over the files that the filter    *)
@@ -34,7 +36,7 @@ VARIABLES sc, ph, annSeen, fnAnnSeen, ignSeen, diags
 
 vars == <<sc, ph, annSeen, fnAnnSeen, ignSeen, diags>>
 
-Classes == {"sibling", "test", "xtest", "tdpath", "genpath", "genfile", "genfirst"}
+Classes == {"sibling", "test", "xtest", "tdpath", "genpath", "genfile", "genfirst", "gentest"}
 PathSets == {{}, {"testdata"}, {"zzgen"}, {"testdata", "zzgen"}}
 
 Valid(s) == /\ (s.ann => s.cls \in {"sibling", "tdpath", "genpath", "genfile", "genfirst"})
@@ -43,16 +45,16 @@ Valid(s) == /\ (s.ann => s.cls \in {"sibling", "tdpath", "genpath", "genfile", "
 Init == /\ sc \in {s \in [cls : Classes, ann : BOOLEAN, viol : BOOLEAN, ign : BOOLEAN, scan : BOOLEAN, paths : PathSets] : Valid(s)}
         /\ ph = "ann" /\ annSeen = FALSE /\ fnAnnSeen = FALSE /\ ignSeen = FALSE /\ diags = {}
 
-IsTest(cls) == cls \in {"test", "xtest"}
+IsTest(cls) == cls \in {"test", "xtest", "gentest"}
 Skip == \/ IsTest(sc.cls) /\ ~sc.scan
         \/ sc.cls = "tdpath" /\ "testdata" \in sc.paths
-        \/ sc.cls \in {"genpath", "genfile", "genfirst"} /\ "zzgen" \in sc.paths
+        \/ sc.cls \in {"genpath", "genfile", "genfirst", "gentest"} /\ "zzgen" \in sc.paths
 
 (* L1 *)
 Expected == {"A1"}
             \cup (IF sc.ann /\ ~Skip THEN {"A2", "A3"} ELSE {})
             \cup (IF sc.viol /\ ~Skip /\ ~sc.ign THEN {"X1"} ELSE {})
-            \cup (IF sc.viol /\ ~Skip /\ ~sc.ign /\ ~IsTest(sc.cls) THEN {"X2"} ELSE {})
+            \cup (IF sc.viol /\ ~Skip /\ ~sc.ign /\ ~IsTest(sc.cls) THEN {"X2", "X3"} ELSE {})
 
 (* L2 *)
 \* the filter as each reader applies it ("FirstFile": a path entry is looked up on the first file of the package only -
@@ -60,6 +62,7 @@ Expected == {"A1"}
 Filtered(reader) ==
   IF reader \in Deviations THEN FALSE
   ELSE IF "FirstFile" \in Deviations /\ sc.cls = "genfile" THEN FALSE     \* a.go comes first and is not excluded
+  ELSE IF "TestSuffixFirst" \in Deviations /\ IsTest(sc.cls) THEN ~sc.scan \* the _test.go suffix is looked at before exclude-paths
   ELSE Skip
 
 ReadAnnotations ==
@@ -81,7 +84,8 @@ Check ==
               \cup (IF annSeen THEN {"A2"} ELSE {})
               \cup (IF fnAnnSeen THEN {"A3"} ELSE {})
               \cup (IF sc.viol /\ ~Filtered("CheckNoFilter") /\ ~ignSeen THEN {"X1"} ELSE {})
-              \cup (IF sc.viol /\ ~Filtered("CheckNoFilter") /\ ~ignSeen /\ (~IsTest(sc.cls) \/ "TonlInTests" \in Deviations) THEN {"X2"} ELSE {})
+              \cup (IF sc.viol /\ ~Filtered("CheckNoFilter") /\ ~ignSeen /\ (~IsTest(sc.cls) \/ "TonlInTests" \in Deviations) THEN {"X2", "X3"} ELSE {})
+              \cup (IF sc.viol /\ ~Filtered("CheckNoFilter") /\ ~ignSeen /\ IsTest(sc.cls) /\ "TonlPkgLevelInTests" \in Deviations THEN {"X3"} ELSE {})
   /\ ph' = "done"
   /\ UNCHANGED <<sc, annSeen, fnAnnSeen, ignSeen>>
 
@@ -94,12 +98,12 @@ Termination == <>Done
 
 Exact == Done => diags = Expected
 \* (1) no diagnostic is located in a skipped file
-NoneInSkipped == (Done /\ Skip) => diags \cap {"X1", "X2"} = {}
+NoneInSkipped == (Done /\ Skip) => diags \cap {"X1", "X2", "X3"} = {}
 \* (2) what a skipped file contains does not influence the other files
 Inert == (Done /\ Skip) => diags = {"A1"}
 \* (3) test files never receive TONL diagnostics, but everything else when scan-tests is on
-TestFiles == (Done /\ IsTest(sc.cls)) => /\ "X2" \notin diags
-                                          /\ (sc.scan /\ sc.viol /\ ~sc.ign => "X1" \in diags)
+TestFiles == (Done /\ IsTest(sc.cls)) => /\ "X2" \notin diags /\ "X3" \notin diags
+                                          /\ (sc.scan /\ ~Skip /\ sc.viol /\ ~sc.ign => "X1" \in diags)
 
 EmitInv == (Emit /\ Done) => PrintT("@E " \o ToJson([sc |-> sc, skip |-> Skip, expect |-> Expected]))
 =============================================================================
